@@ -36,6 +36,16 @@ func debugDump(w *World, what string, args []string) {
 			}
 		}
 		fmt.Println("proved", ok, "unproven", bad)
+	case "flagreduce":
+		r := NewReport("C10", "quick", "/tmp/dbg")
+		r.W = w
+		RunFlagReduce(w, r, w.LibFuncs(), "all")
+		for _, o := range r.Obls {
+			if o.Status != StOK {
+				fmt.Println(o.Pos, o.Key)
+			}
+		}
+		fmt.Println(len(r.Obls), "boolean loop variables")
 	case "ctlbounds":
 		cw, err := controlWorld("/verif")
 		if err != nil {
